@@ -44,6 +44,9 @@ def registry():
         refmgr_py.register(_REG, PROPERTIES)
         from . import reference_py
         reference_py.register(_REG, PROPERTIES)
+        from . import space_py
+        space_py.register(_REG, PROPERTIES)
+        space_py.register2(_REG, PROPERTIES)
         from . import serialize_py
         serialize_py.register(_REG, PROPERTIES)
         from . import registry_py
